@@ -136,41 +136,27 @@ def classify(result, credit):
     return 'other:grade=%r' % g
 
 
-def run_form_case(c):
-    """Build the real grader for a form case and grade the student's formula.
-    returns (observation, draws_ok, answer text, student text)"""
+_GRADERS = {}
+
+
+def configured_grader(c, with_d):
+    """One FormulaGrader / MatrixGrader per configuration and worker process, graded many times with fresh scripts
+    (constructing a grader costs five times more than grading with it).  The sampling sets are author-defined
+    ScriptedSampler instances: their script is replaced and their record of draws cleared before every call."""
     from engine.fixtures import ScriptedSampler
-    from mitxgraders import FormulaGrader, NumericalGrader, MatrixGrader
-    form, par = c['fp']['form'], c['fp']['par']
-    credit = credit_py(c['credit'])
-    cfg = dict(tolerance=tol_py(c['tol']))
-    samplers = []
-    if c['grader'] == 'N':
-        X = lit_value(c['xs'][0])
-        answer = X
-        student = student_text(form, X, lit_value(par[0]))
-        cfg['answers'] = {'expect': answer, 'grade_decimal': credit}
-        if c['part'] == 'inf':
-            cfg['allow_inf'] = True
-        g = NumericalGrader(**cfg)
-    else:
-        answer = 'x'
-        script = [value_py(v) for v in c['xs']]
-        sx = ScriptedSampler(script=script)
-        samplers.append((sx, script))
-        variables, sample_from = ['x'], {'x': sx}
-        if form == 'addvar':
-            dscript = [value_py(v) for v in par]
-            sd = ScriptedSampler(script=dscript)
-            samplers.append((sd, dscript))
+    from mitxgraders import FormulaGrader, MatrixGrader
+    key = (c['grader'], c['tol']['kind'], tuple(c['tol']['v']), c['n'], c['failable'], tuple(c['credit']),
+           c['part'] == 'inf', with_d)
+    hit = _GRADERS.get(key)
+    if hit is None:
+        sx = ScriptedSampler(script=[1.0])
+        variables, sample_from, sd = ['x'], {'x': sx}, None
+        if with_d:
+            sd = ScriptedSampler(script=[1.0])
             variables.append('d')
             sample_from['d'] = sd
-            P = 'd'
-        else:
-            P = lit_value(par[0])
-        student = student_text(form, 'x', P)
-        cfg.update(answers={'expect': answer, 'grade_decimal': credit}, variables=variables, sample_from=sample_from,
-                   samples=c['n'], failable_evals=c['failable'])
+        cfg = dict(tolerance=tol_py(c['tol']), answers={'expect': 'x', 'grade_decimal': credit_py(c['credit'])},
+                   variables=variables, sample_from=sample_from, samples=c['n'], failable_evals=c['failable'])
         if c['grader'] == 'M':
             cfg['max_array_dim'] = 2
             g = MatrixGrader(**cfg)
@@ -178,6 +164,43 @@ def run_form_case(c):
             if c['part'] == 'inf':
                 cfg['allow_inf'] = True
             g = FormulaGrader(**cfg)
+        if len(_GRADERS) > 400:
+            _GRADERS.clear()
+        hit = _GRADERS[key] = (g, sx, sd)
+    return hit
+
+
+def run_form_case(c):
+    """Grade the student's formula of a form case with the real grader.
+    returns (observation, draws_ok, answer text, student text)"""
+    from mitxgraders import NumericalGrader
+    form, par = c['fp']['form'], c['fp']['par']
+    credit = credit_py(c['credit'])
+    samplers = []
+    if c['grader'] == 'N':
+        X = lit_value(c['xs'][0])
+        answer = X
+        student = student_text(form, X, lit_value(par[0]))
+        cfg = dict(tolerance=tol_py(c['tol']), answers={'expect': answer, 'grade_decimal': credit})
+        if c['part'] == 'inf':
+            cfg['allow_inf'] = True
+        g = NumericalGrader(**cfg)
+    else:
+        answer = 'x'
+        g, sx, sd = configured_grader(c, form == 'addvar')
+        script = [value_py(v) for v in c['xs']]
+        sx.config['script'] = script
+        sx.draws = []
+        samplers.append((sx, script))
+        if form == 'addvar':
+            dscript = [value_py(v) for v in par]
+            sd.config['script'] = dscript
+            sd.draws = []
+            samplers.append((sd, dscript))
+            P = 'd'
+        else:
+            P = lit_value(par[0])
+        student = student_text(form, 'x', P)
     try:
         res = g(None, student)
         obs = classify(res, credit)
@@ -466,7 +489,7 @@ def rand_verdict_case(rng, i):
     """One random scripted case.  Magnitudes are bounded so that the exact oracle stays inside 32-bit integers
     (values k/S with |k| <= 200, S <= 20; deviations m/S' with |m| <= 400, S' <= 200; squared mode: p >= 1 %)."""
     n = rng.randint(1, 8)
-    failable = rng.choice([0, 0, 1, 1, 2, 3, 5, 8])
+    failable = rng.choice([0, 0, 1, 1, 2, 3, max(n - 1, 0), n, 8])
     credit = rng.choice([Fraction(1), Fraction(1), Fraction(1, 2), Fraction(1, 4), Fraction(3, 4)])
     kind = rng.choice(['real', 'real', 'cx', 'vec', 'mat'])
     if kind in ('real', 'cx'):
